@@ -31,6 +31,10 @@ type histProp struct {
 	// midtext adds single-fill texts of 2-60 kB over small alphabets (the
 	// sizes at which the fallback sorters of the suffix sort run).
 	midtext bool
+	// far adds OSAP cases with windows of 600 bytes up to 256 KiB on data
+	// with few repeats that are planted at the distances where the offset
+	// cost changes (cost classes of the cost function, far short matches).
+	far bool
 	// fixed are hand-written directed cases (kind "fixed:<name>"), e.g. the
 	// reproducers of recorded findings.
 	fixed map[string]PCase
@@ -85,6 +89,10 @@ func (h *histProp) Plan(tier string, seed int64) []core.Segment {
 				segs = append(segs, core.Segment{Kind: "shapes:" + t, N: n, Chunk: 2})
 			}
 		} else {
+			if h.far {
+				segs = append(segs, core.Segment{Kind: "far:" + t, N: 240 * tierScale(tier, 10), Chunk: 8},
+					core.Segment{Kind: "farbig:" + t, N: 2 * tierScale(tier, 4), Chunk: 1})
+			}
 			if h.midtext {
 				segs = append(segs, core.Segment{Kind: "midtext:" + t, N: 160 * tierScale(tier, 10), Chunk: 8})
 			}
@@ -261,6 +269,80 @@ func (h *histProp) Gen(kind string, idx int64, seed int64, tier string) core.Cas
 			}
 		}
 		pc.Ops = append(phase1, pc.Ops...)
+	case "far", "farbig":
+		c := gen.SmallCfg(r, typ, o)
+		c.MinMatchLen = 2 + r.Intn(2)
+		c.MaxMatchLen = []int{c.MinMatchLen, 4, 8, 17, 18, 19, 273}[r.Intn(7)]
+		if c.MaxMatchLen < c.MinMatchLen {
+			c.MaxMatchLen = c.MinMatchLen
+		}
+		var n int
+		if class == "far" {
+			c.WindowSize = []int{600, 1024, 1025, 2048, 2049, 4096, 5000, 700}[r.Intn(8)]
+			c.BufferSize = c.WindowSize + r.Intn(3000)
+			c.BlockSize = 64 + r.Intn(1000)
+			n = 2*c.BufferSize + r.Intn(4000)
+		} else {
+			c.MinMatchLen = 3
+			c.WindowSize = 1 << 18
+			c.BufferSize = 1<<18 + r.Intn(1000)
+			c.BlockSize = 1<<15 + r.Intn(1<<15)
+			n = 300000
+		}
+		c.ShrinkSize = r.Intn(c.BufferSize)
+		// random bytes: almost no repeats by chance; short copies are planted
+		// at the distances where the offset cost of the cost function changes
+		stream := make([]byte, n)
+		alpha := []int{256, 128, 64}[r.Intn(3)]
+		for i := range stream {
+			stream[i] = byte(r.Intn(alpha))
+		}
+		for i := 8; i+8 < n; i += 1 + r.Intn(40) {
+			var d int
+			switch r.Intn(4) {
+			case 0:
+				d = 1 << uint(2+r.Intn(17))
+				d += r.Intn(3) - 1
+			case 1:
+				d = 513 + r.Intn(1536)
+			case 2:
+				d = c.WindowSize + r.Intn(3) - 1
+			default:
+				d = 131073 + r.Intn(100000)
+				if class == "far" {
+					d = 1 + r.Intn(c.WindowSize)
+				}
+			}
+			if d < 1 || d > i {
+				continue
+			}
+			l := c.MinMatchLen + r.Intn(3)
+			if r.Intn(6) == 0 {
+				l += r.Intn(30)
+			}
+			for j := 0; j < l && i+j < n; j++ {
+				stream[i+j] = stream[i+j-d]
+			}
+			i += l
+		}
+		pc = PCase{Cfg: c, Family: "far", Stream: stream, Ops: GenOps(r, 40+r.Intn(40), h.weights)}
+		if class == "farbig" {
+			// every refill sorts 256 Ki suffixes: a short fixed history
+			pc.Ops = []POp{{K: "write", A: 1, B: 0}}
+			for j := 0; j < 6; j++ {
+				pc.Ops = append(pc.Ops, POp{K: "parse"})
+			}
+			pc.Ops = append(pc.Ops, POp{K: "shrink"}, POp{K: "write", A: 1, B: 0}, POp{K: "parse"}, POp{K: "parse"})
+		}
+		for i := range pc.Ops {
+			op := &pc.Ops[i]
+			if (op.K == "write" || op.K == "readfrom") && op.A == 0 {
+				op.B *= 1 + r.Intn(c.BufferSize/100+1)
+			}
+			if op.K == "wparse" && op.C&1 == 0 {
+				op.D *= 1 + r.Intn(c.BufferSize/100+1)
+			}
+		}
 	case "midtext":
 		// one fill of 2-60 kB over an alphabet of 2-4 letters, window at least
 		// as large as the buffer, parsed in blocks of 1 kB up to everything
@@ -344,7 +426,7 @@ func (h *histProp) Gen(kind string, idx int64, seed int64, tier string) core.Cas
 		nops := 20 + r.Intn(61)
 		pc = GenPCase(r, typ, o, h.weights, nops, 200+r.Intn(1000))
 	}
-	if h.tweak != nil && class != "fixed" {
+	if h.tweak != nil && class != "fixed" && class != "far" && class != "farbig" && class != "midtext" {
 		h.tweak(r, &pc, kind)
 	}
 	return core.MkCase(h.id, kind, idx, seed, tier, pc)
